@@ -188,9 +188,11 @@ lemma foldl_max_le (a : Int) (l : List Int) (h : ∀ x ∈ l, x ≤ a) : l.foldl
 /-- The largest block produced by an integer chunk size `1 ≤ c ≤ s` is exactly `c`: this links the loop's choice
 (`autoLoop_within`: product of the chosen sizes ≤ limit, each in `1..n`) to the block sizes `validate_chunks` returns.
 
-Full end-to-end statement (not proved; observed by the conformance oracle `auto-chunks-exceed-limit`):
-  `validateChunks shape ch (some M) = .ok v` with all dimensions ≥ 1, a well-formed `ch` and `∏ fixed ≤ M`
-  implies `∏ᵢ maxOf vᵢ ≤ M`.  Missing: the plumbing through `classify` / `rebuild` / `fillIn`. -/
+Full end-to-end statement for *mixed* specifications (not proved; observed by the conformance oracle
+`auto-chunks-exceed-limit`): `validateChunks shape ch (some M) = .ok v` with all dimensions ≥ 1, a well-formed `ch` mixing
+'auto' with fixed ints / tuples and `∏ fixed ≤ M` implies `∏ᵢ maxOf vᵢ ≤ M`.  The all-automatic case (an integer `chunks`)
+is proved end to end below (`auto_all_within_limit`); missing for mixes: the interleaving of fixed and automatic
+dimensions through `classify` / `rebuild`. -/
 theorem fill_int_max_partial (s c : Int) (hc : 1 ≤ c) (hcs : c ≤ s) :
     ∃ v, fillDim s (.int c) = .ok v ∧ maxOf v = c := by
   obtain ⟨v, hv, _, hmem, hform⟩ := fill_int_spec s c (by omega) hc
@@ -694,6 +696,152 @@ theorem auto_loop_within_limit (F M : Int) (ns : List Int) (hn : ∀ n ∈ ns, 1
     rcases autoLoop_within F M (autoFuel (ns.map fun n => (1, n))) [] _ hb (by simpa using hfit) with h | ⟨fin, h1, h2, h3, h4⟩
     · exact absurd h (autoLoop_fuel F M _ [] _ (psi_init _))
     · exact ⟨fin, h1, h2, h3, by simpa [List.map_map, Function.comp] using h4⟩
+
+/-! ### end to end: an integer `chunks` argument (all dimensions automatic) -/
+
+/-- the chunk tuple `fill_in_chunk_sizes` produces for an integer chunk size -/
+def fillVec (s c : Int) : List Int := List.replicate (s / c).toNat c ++ (if s % c ≠ 0 then [s % c] else [])
+
+lemma fillDim_int_eq (s c : Int) (hs : 0 ≤ s) (hc : 1 ≤ c) : fillDim s (.int c) = .ok (fillVec s c) := by
+  obtain ⟨v, hv, _, _, hform⟩ := fill_int_spec s c hs hc
+  rw [hv, hform]; rfl
+
+lemma fillVec_props (s c : Int) (hc : 1 ≤ c) (hcs : c ≤ s) :
+    (fillVec s c).sum = s ∧ maxOf (fillVec s c) = c ∧ ∀ x ∈ fillVec s c, 1 ≤ x := by
+  obtain ⟨v, hv, hsum, hmem, hform⟩ := fill_int_spec s c (by omega) hc
+  obtain ⟨v', hv', hmax⟩ := fill_int_max_partial s c hc hcs
+  have e1 : v = fillVec s c := by rw [hform]; rfl
+  have e2 : v' = v := by rw [hv] at hv'; injection hv' with h; exact h.symm
+  subst e1; subst e2
+  exact ⟨hsum, hmax, fun x hx => (hmem x hx).1⟩
+
+lemma mapM_ok_of_forall {α β : Type} (f : α → Except String β) (g : α → β) (xs : List α)
+    (h : ∀ x ∈ xs, f x = .ok (g x)) : xs.mapM f = .ok (xs.map g) := by
+  induction xs with
+  | nil => rfl
+  | cons x xs ih =>
+    rw [List.mapM_cons, h x (by simp), ih fun y hy => h y (by simp [hy])]
+    rfl
+
+lemma zip_map_map {α β γ : Type} (f : α → β) (g : α → γ) (l : List α) :
+    (l.map f).zip (l.map g) = l.map fun x => (f x, g x) := by
+  induction l with
+  | nil => rfl
+  | cons x xs ih => simp [ih]
+
+lemma zipWith_normalize_auto (shape : List Int) :
+    List.zipWith normalize shape (List.replicate shape.length Spec.auto) = List.replicate shape.length Spec.auto := by
+  induction shape with
+  | nil => rfl
+  | cons n ns ih => simp [List.replicate_succ, normalize, ih]
+
+lemma zip_replicate_auto (shape : List Int) :
+    shape.zip (List.replicate shape.length Spec.auto) = shape.map fun n => (n, Spec.auto) := by
+  induction shape with
+  | nil => rfl
+  | cons n ns ih => simp [List.replicate_succ, ih]
+
+lemma foldl_mul_ones (l : List Int) (a : Int) (h : ∀ x ∈ l, x = 1) : l.foldl (· * ·) a = a := by
+  induction l generalizing a with
+  | nil => rfl
+  | cons x xs ih =>
+    simp only [List.foldl_cons, h x (by simp), mul_one]
+    exact ih a fun y hy => h y (by simp [hy])
+
+lemma rebuild_all_auto (fin : List (Int × Int)) :
+    rebuild (List.replicate fin.length Spec.auto) fin = fin.map fun p => Spec.int p.1 := by
+  induction fin with
+  | nil => rfl
+  | cons p ps ih => obtain ⟨c, n⟩ := p; simp [List.replicate_succ, rebuild, ih]
+
+/-- **Automatic chunking end to end** (`validate_chunks(shape, c)` with an integer `c ≥ 1`, every dimension ≥ 1, the way
+abTEM chunks ensembles by a `max_batch`): the call succeeds, every chunk is ≥ 1, and the largest block — the product of
+the largest chunk of every dimension — has at most `c` elements. -/
+theorem auto_all_within_limit (shape : List Int) (c : Int) (hs : ∀ n ∈ shape, 1 ≤ n) (hc : 1 ≤ c) (m : Option Int) :
+    ∃ v, validateChunks shape (.int c) m = .ok v ∧ (v.map maxOf).foldl (· * ·) 1 ≤ c ∧ ∀ cc ∈ v, ∀ x ∈ cc, 1 ≤ x := by
+  have hc1 : c ≠ -1 := by omega
+  -- the loop
+  have hones : prodCur (shape.map fun n => ((1 : Int), n)) = 1 := by
+    unfold prodCur
+    apply foldl_mul_ones
+    intro x hx
+    simp only [List.map_map, List.mem_map, Function.comp] at hx
+    obtain ⟨n, _, rfl⟩ := hx; rfl
+  obtain ⟨fin, hrun, hfit, hb, hsnd⟩ := auto_loop_within_limit 1 c shape hs (by rw [hones]; omega)
+  have hlen : fin.length = shape.length := by rw [← hsnd]; simp
+  -- the result
+  refine ⟨fin.map fun p => fillVec p.2 p.1, ?_, ?_, ?_⟩
+  · have hcl : checkLength shape (List.replicate shape.length Spec.auto) = .ok () := by simp [checkLength]
+    have hcls : (shape.zip (List.replicate shape.length Spec.auto)).mapM
+        (fun (x : Int × Spec) => classify x.1 x.2) = .ok (shape.map fun n => ((1 : Int), n, true)) := by
+      rw [zip_replicate_auto,
+        mapM_ok_of_forall _ (fun x : Int × Spec => ((1 : Int), x.1, true))]
+      · simp [List.map_map, Function.comp]
+      · intro x hx
+        obtain ⟨n, _, rfl⟩ := List.mem_map.1 hx
+        simp [classify]
+    have hautos : ((shape.map fun n => ((1 : Int), n, true)).filter fun t => t.2.2).map (fun t => (t.1, t.2.1))
+        = shape.map fun n => ((1 : Int), n) := by
+      rw [List.filter_eq_self.2 (by intro t ht; obtain ⟨n, _, rfl⟩ := List.mem_map.1 ht; rfl)]
+      simp [List.map_map, Function.comp]
+    have hF : (((shape.map fun n => ((1 : Int), n, true)).filter fun t => !t.2.2).map fun t => t.1).foldl (· * ·) 1 = (1 : Int) := by
+      rw [List.filter_eq_nil_iff.2 (by intro t ht; obtain ⟨n, _, rfl⟩ := List.mem_map.1 ht; simp)]
+      rfl
+    have hauto : autoChunks shape (List.replicate shape.length Spec.auto) (some c)
+        = validateExplicit shape (fin.map fun p => Spec.int p.1) := by
+      have hreb : rebuild (List.replicate shape.length Spec.auto) fin = fin.map fun p => Spec.int p.1 := by
+        rw [← hlen]; exact rebuild_all_auto fin
+      unfold autoChunks
+      simp only [hcl, bind, Except.bind, zipWith_normalize_auto, hcls, hautos, hF, hrun, hreb]
+    have hzipl : shape.zip (fin.map fun p => Spec.int p.1) = fin.map fun p => (p.2, Spec.int p.1) := by
+      rw [← hsnd]; exact zip_map_map _ _ fin
+    have hzipv : shape.zip (fin.map fun p => fillVec p.2 p.1) = fin.map fun p => (p.2, fillVec p.2 p.1) := by
+      rw [← hsnd]; exact zip_map_map _ _ fin
+    have hassert : assertMatch shape (fin.map fun p => fillVec p.2 p.1) = .ok (fin.map fun p => fillVec p.2 p.1) := by
+      unfold assertMatch
+      rw [hzipv, if_pos]
+      rw [List.all_eq_true]
+      intro x hx
+      obtain ⟨p, hp, rfl⟩ := List.mem_map.1 hx
+      have := (fillVec_props p.2 p.1 (hb p hp).1 (hb p hp).2).1
+      simpa using this
+    have hval : validateExplicit shape (fin.map fun p => Spec.int p.1) = .ok (fin.map fun p => fillVec p.2 p.1) := by
+      unfold validateExplicit
+      have hcl2 : checkLength shape (fin.map fun p => Spec.int p.1) = .ok () := by simp [checkLength, hlen]
+      simp only [hcl2, bind, Except.bind]
+      cases hfin : fin with
+      | nil => subst hfin; simp at hlen; have : shape = [] := List.eq_nil_of_length_eq_zero hlen.symm; subst this; rfl
+      | cons p ps =>
+        rw [← hfin]
+        have h1 : (fin.map fun p => Spec.int p.1).all Spec.isTup = false := by rw [hfin]; simp [Spec.isTup]
+        have h2 : (fin.map fun p => Spec.int p.1).all Spec.isIntOrTup = true := by
+          rw [List.all_eq_true]; intro x hx; obtain ⟨q, _, rfl⟩ := List.mem_map.1 hx; rfl
+        have hfill : fillIn shape (fin.map fun p => Spec.int p.1) = .ok (fin.map fun p => fillVec p.2 p.1) := by
+          unfold fillIn
+          rw [hzipl, mapM_ok_of_forall _ (fun x : Int × Spec => match x.2 with | .int c => fillVec x.1 c | _ => [])]
+          · simp [List.map_map, Function.comp]
+          · intro x hx
+            obtain ⟨q, hq, rfl⟩ := List.mem_map.1 hx
+            have := hb q hq
+            exact fillDim_int_eq q.2 q.1 (by omega) (by omega)
+        simp only [h1, h2, hfill, Bool.false_eq_true, if_false, if_true]
+        exact hassert
+    simp only [validateChunks, hc1, if_false, hauto, hval, bind, Except.bind]
+    exact hassert
+  · have : (fin.map fun p => fillVec p.2 p.1).map maxOf = fin.map Prod.fst := by
+      rw [List.map_map]
+      apply List.map_congr_left
+      intro p hp
+      exact (fillVec_props p.2 p.1 (hb p hp).1 (hb p hp).2).2.1
+    rw [this]
+    have : (fin.map Prod.fst).foldl (· * ·) 1 = prodCur fin := rfl
+    rw [this]; linarith
+  · intro cc hcc x hx
+    obtain ⟨p, hp, rfl⟩ := List.mem_map.1 hcc
+    exact (fillVec_props p.2 p.1 (hb p hp).1 (hb p hp).2).2.2 x hx
+
+example : validateChunks [7, 9] (.int 10) none = .ok [[3, 3, 1], [3, 3, 3]] ∧
+    (([[3, 3, 1], [3, 3, 3]] : List (List Int)).map maxOf).foldl (· * ·) 1 ≤ 10 := by decide +kernel
 
 /-! ### non-vacuity: concrete instances of hypotheses and conclusions -/
 example : validateChunks [7, 9] (.int 10) none = .ok [[3, 3, 1], [3, 3, 3]] := by decide +kernel
